@@ -2,4 +2,5 @@ import FlVerif.Drv.All
 import FlVerif.Props.C04
 import FlVerif.Props.C05
 import FlVerif.Props.C07
+import FlVerif.Props.C08
 import FlVerif.Props.C19
